@@ -92,3 +92,9 @@ package egress
 //verif:call[dialled-address-is-the-candidate] net.JoinHostPort requires arg0 == result_of("net.(IP).String", 0) && arg1 == port && since("Refuse", "net.(IP).String") == 0
 //verif:call[string-of-the-candidate] net.(IP).String requires arg0 == ip$2 && since("net.(IP).String", "Refuse") == 0
 //verif:loop 0 invariant true
+
+// The refused-range tables are written by the package initialiser only.
+//verif:owns global.refusedV4 : init
+//verif:owns global.refusedV6 : init
+//verif:owns global.nat64Net : init
+//verif:owns global.v4TranslatedNet : init
